@@ -269,3 +269,117 @@ Ltac proj_cbn :=
   cbn [p_stack p_locals p_frames p_pers p_mailbox p_result p_sel p_await
        set_stack set_locals set_frames set_mailbox set_result set_sel set_await fail_proc new_proc
        result_refs sel_refs].
+
+(* ------------------------------------------------------------------ *)
+(* 2. notify_message                                                   *)
+(* ------------------------------------------------------------------ *)
+
+Lemma notify_message_XInv x pid v data x' :
+  XInv x -> notify_message x pid v data = Val x' -> XInv x' /\ xstable x x'.
+Proof.
+  intros X H. unfold notify_message in H.
+  apply obind_val in H as ([h1 v1] & Hi & H).
+  pose proof X as (W & R & ND).
+  destruct (inject_cnt _ _ _ _ _ W Hi) as (W1 & St1 & Cb1 & Rc1).
+  destruct (get_proc x pid) as [p|] eqn:G.
+  - apply obind_val in H as (h2 & Hr & H). inversion H; subst x'; clear H.
+    unfold retain in Hr.
+    destruct (retain_l_cnt _ _ _ W1 Hr) as (W2 & St2 & Cb2 & Rc2).
+    destruct (XInv_take _ _ _ X G) as [_ Hp].
+    split.
+    + apply XInv_put; [exact ND|]. split; [exact W2|]. intro i.
+      rewrite Rc2, Rc1, Hp, Cb2, Cb1, !cnt_proc_refs. proj_cbn.
+      rewrite cnt_refs_list_app, cnt_refs_list_cons, cnt_refs_list_nil. lia.
+    + unfold xstable. cbn [x_heap put_proc put_heap]. eapply stable_trans; eauto.
+  - inversion H; subst x'; clear H. split.
+    + apply XInv_put_heap; assumption.
+    + exact St1.
+Qed.
+
+(* ------------------------------------------------------------------ *)
+(* 3. notify_result                                                    *)
+(* ------------------------------------------------------------------ *)
+
+Lemma notify_result_XInv x awaiter awaited v data x' :
+  XInv x -> notify_result true x awaiter awaited v data = Val x' -> XInv x' /\ xstable x x'.
+Proof.
+  intros X H. unfold notify_result in H.
+  apply obind_val in H as ([h1 v1] & Hi & H).
+  pose proof X as (W & R & ND).
+  destruct (inject_cnt _ _ _ _ _ W Hi) as (W1 & St1 & Cb1 & Rc1).
+  destruct (get_proc x awaiter) as [p|] eqn:G.
+  - apply obind_val in H as (h2 & Hr & H). unfold retain in Hr.
+    destruct (retain_l_cnt _ _ _ W1 Hr) as (W2 & St2 & Cb2 & Rc2).
+    destruct (assoc_set awaited (Some v1) (p_await p)) as [a' old] eqn:Es.
+    apply obind_val in H as (h3 & Hrel & H). inversion H; subst x'; clear H.
+    destruct (XInv_take _ _ _ X G) as [_ Hp].
+    assert (Hrel' : release_l h2 (oo_refs old) = Val h3).
+    { destruct old as [[o|]|]; cbn [oo_refs]; try exact Hrel; exact Hrel. }
+    destruct (release_l_cnt _ _ _ W2 Hrel') as (W3 & St3 & Cb3 & Rc3).
+    split.
+    + apply XInv_put; [exact ND|]. split; [exact W3|]. intro i.
+      pose proof (await_set_cnt _ _ _ _ _ i Es) as Ha. cbn [oo_refs] in Ha.
+      specialize (Rc3 i). rewrite Rc2, Rc1, Hp in Rc3.
+      rewrite Cb3, Cb2, Cb1, !cnt_proc_refs in *. proj_cbn. lia.
+    + unfold xstable. cbn [x_heap put_proc put_heap].
+      eapply stable_trans; [exact St1|]. eapply stable_trans; eauto.
+  - inversion H; subst x'; clear H. split.
+    + apply XInv_put_heap; assumption.
+    + exact St1.
+Qed.
+
+(* the code as found (no hooks/fix_F9.patch): the displaced `awaiting` value is dropped without a
+   release *)
+Definition nr_heap : heap := mkHeap [Owned []] [1] [] [] [false] [].
+Definition nr_exec : exec :=
+  mkExec nr_heap [(0, mkProc [] [] [] false [] None None [(1, Some (VBin 0))])].
+
+Lemma nth_nil_nat i : nth i (@nil nat) 0 = 0.
+Proof. destruct i; reflexivity. Qed.
+Lemma nth_nil_bool i : nth i (@nil bool) false = false.
+Proof. destruct i; reflexivity. Qed.
+
+Lemma nr_heap_WF : WFh nr_heap.
+Proof.
+  unfold WFh, nr_heap; cbn [cells rcs free pending freed length].
+  split; [reflexivity|]. split; [reflexivity|]. split; [constructor|].
+  split; [|split].
+  - intros i. split; [intros []|]. intros [Hi Hf].
+    destruct i as [|i]; [discriminate Hf|lia].
+  - intros i Hf. destruct i as [|i]; [discriminate Hf|].
+    unfold freed_at in Hf; simpl in Hf. destruct i; discriminate Hf.
+  - intros i [].
+Qed.
+
+Example nr_exec_XInv : XInv nr_exec.
+Proof.
+  split; [exact nr_heap_WF|]. split.
+  - intro i. destruct i as [|i]; [reflexivity|].
+    replace (rc_at (x_heap nr_exec) (S i)) with 0 by (destruct i; reflexivity).
+    symmetry. apply cnt_zero_notIn. vm_compute. intros [H|[]]. discriminate H.
+  - cbn. constructor; [intros []|constructor].
+Qed.
+
+Example notify_result_refuted :
+  exists x v, XInv x /\ exists x', notify_result false x 0 1 v [] = Val x' /\ ~ RC x'.
+Proof.
+  exists nr_exec, (VInt 5%Z). split; [exact nr_exec_XInv|].
+  eexists. split; [vm_compute; reflexivity|].
+  intro R. specialize (R 0). vm_compute in R. discriminate R.
+Qed.
+
+(* ------------------------------------------------------------------ *)
+(* 4. notify_spawn                                                     *)
+(* ------------------------------------------------------------------ *)
+
+Lemma notify_spawn_XInv x pid pv x' :
+  refs_of pv = [] -> XInv x -> notify_spawn x pid pv = Val x' -> XInv x' /\ xstable x x'.
+Proof.
+  intros E X H. unfold notify_spawn in H. pose proof X as (W & R & ND).
+  destruct (get_proc x pid) as [p|] eqn:G.
+  - unfold bump_pc in H. inversion H; subst x'; clear H. split; [|apply stable_refl].
+    change (put_proc x pid ?q) with (put_proc (put_heap x (x_heap x)) pid q).
+    apply XInv_put; [exact ND|]. eapply Inv_refs_eq; [|exact (XInv_take _ _ _ X G)].
+    intro i. rewrite !cnt_proc_refs. proj_cbn. rewrite cnt_refs_list_cons, E, cnt_nil. lia.
+  - inversion H; subst x'. split; [exact X|apply stable_refl].
+Qed.
